@@ -91,7 +91,14 @@ def run(ctx):
     ctx.coverage.update(hostproto_design_states=hr.distinct, hostproto_scripts=hs["scripts"], hostproto_replayed=hs["replayed"],
                         hostproto_model_counterexample_without_delete=True)
     # live multiplexers: junk / malformed / bit-flipped transaction bytes through DeliverTx (every call under recover())
-    lines, sums = cc.run_scenarios(ctx, [ctx.seed * 1000 + 900 + i for i in range(3 if q else 24)], 120 if q else 300, halt_ok=True)
+    # (-txsweep: every third block, every single structural mutation of the body of each of the block's well-formed transactions -
+    # a map entry dropped, a value replaced by null / an empty map, array or byte string / 0 / 2^63 / text - correctly signed, at
+    # the observer's mempool check and gas estimation; transactions of every kind the scenarios generate)
+    lines, sums = cc.run_scenarios(ctx, [ctx.seed * 1000 + 900 + i for i in range(4 if q else 24)], 150 if q else 300,
+                                   extra=["-txsweep", "-validators", "5", "-maxgroup", "3"], halt_ok=True)
+    l2, s2 = cc.run_scenarios(ctx, [ctx.seed * 1000 + 950 + i for i in range(2 if q else 12)], 150 if q else 300, extra=["-txsweep", "-vault"], halt_ok=True)
+    lines += l2
+    sums += s2
     t = cc.totals(sums)
     hostile = sum(v for k, v in t["tx_kinds"].items() if k.endswith((":junk", ":malformed", ":badsig", ":wrongchain", ":wrongdomain", ":missingsig")))
     for sm in sums:
@@ -100,5 +107,6 @@ def run(ctx):
                         {"kind": "panic", "entry": "mux"})
     ctx.coverage.update(states=g.distinct, transitions=g.generated, traces_validated_against_impl=len(sums), cases=s["cases"], inputs=s["inputs"],
                         accepted=s["accepted"], drift=s["drift"], panics=s["panics"], hangs=s["slow"], big_allocations=s["big_alloc"],
-                        by_entry=s["by_entry"], hostile_transactions_delivered=hostile, exhaustive=False,
+                        by_entry=s["by_entry"], hostile_transactions_delivered=hostile, mutated_bodies_checked=sum(x.get("sweep_inputs", 0) for x in sums),
+                        mutated_bodies_delivered=sum(v for k, v in t["tx_kinds"].items() if k.endswith(":mutbody")), exhaustive=False,
                         samples=[{"kind": c["kind"], "m": c["m"], "bytes": c["bytes"][:24]} for c in s["samples"]])
